@@ -199,18 +199,35 @@ fn report_failure(opts: &Opts, f: Failure) -> ! {
     // the replay file must reproduce the violation in a FRESH process. If the minimised trace
     // does not (the minimiser can be misled when the code under test carries hidden state from
     // one call to the next), fall back to the original trace of the failing run.
-    let fresh = |path: &str| -> bool {
-        match std::env::current_exe().ok().and_then(|exe| std::process::Command::new(exe).args(["replay", id, path]).output().ok()) {
-            Some(o) => o.status.code() == Some(1) && String::from_utf8_lossy(&o.stdout).contains("reproduced exactly"),
-            None => true, // cannot spawn: keep what we have
+    // replay in a fresh process: Some((clause, detail)) as reported there, None if no violation
+    let fresh = |path: &str| -> Option<(String, String)> {
+        let exe = std::env::current_exe().ok()?;
+        let o = std::process::Command::new(exe).args(["replay", id, path]).output().ok()?;
+        if o.status.code() != Some(1) {
+            return None;
         }
+        let text = String::from_utf8_lossy(&o.stdout).to_string();
+        let line = text.lines().find(|l| l.trim_start().starts_with("clause "))?.trim_start().to_string();
+        let rest = line.strip_prefix("clause ")?;
+        let (c, d) = rest.split_once(": ")?;
+        Some((c.to_string(), d.to_string()))
     };
     let mut rf = rf;
     let mut v2 = v2;
     let mut note = String::new();
-    if !fresh(&path) {
-        let have_original = rf.stream_original.is_some() || rf.builder_original.is_some() || matches!(&f.payload, Payload::Stream(_));
-        if have_original {
+    let want_clause = v2.clause.clone();
+    let mut settle = |rf: &mut ReplayFile, v2: &mut Violation, got: (String, String)| {
+        // make the file say what a fresh process reports (same clause; the wording can differ
+        // when the batch process had a past that the replaying process does not have)
+        if got.1 != rf.detail {
+            rf.detail = got.1.clone();
+            v2.detail = got.1;
+            let _ = std::fs::write(&path, serde_json::to_string_pretty(&*rf).unwrap());
+        }
+    };
+    match fresh(&path) {
+        Some(got) if got.0 == want_clause => settle(&mut rf, &mut v2, got),
+        _ => {
             if let Payload::Stream(t) = &f.payload {
                 rf.stream_minimised = Some(t.clone());
             }
@@ -221,10 +238,14 @@ fn report_failure(opts: &Opts, f: Failure) -> ! {
             rf.detail = f.violation.detail.clone();
             v2 = f.violation.clone();
             let _ = std::fs::write(&path, serde_json::to_string_pretty(&rf).unwrap());
-            if fresh(&path) {
-                note = "minimised trace did not reproduce in a fresh process; the replay file holds the unminimised trace of the failing run, which does".into();
-            } else {
-                note = "NOT reproducible in a fresh process from the trace of this run alone: the behaviour depends on state outside the run (e.g. state the code under test keeps between calls, or buffer addresses); the violation was observed in this process as described".into();
+            match fresh(&path) {
+                Some(got) if got.0 == rf.clause => {
+                    settle(&mut rf, &mut v2, got);
+                    note = "minimised trace did not reproduce in a fresh process; the replay file holds the unminimised trace of the failing run, which does".into();
+                }
+                _ => {
+                    note = "NOT reproducible in a fresh process from the trace of this run alone: the behaviour depends on state outside the run (e.g. state the code under test keeps between calls, or buffer addresses); the violation was observed in this process as described".into();
+                }
             }
         }
     }
